@@ -240,6 +240,9 @@ func searchDynGas(r *hx.Rng, n int) (evals int) {
 func searchPrecompiles(g *gen, n int) (evals int) {
 	for i := 0; i < n; i++ {
 		addr := 1 + g.r.Intn(18)
+		if g.r.Chance(1, 4) {
+			addr = 5
+		}
 		in := g.precompileInput(addr)
 		p := rawPrecompiles[precompileAddr(addr)]
 		t0 := time.Now()
@@ -270,6 +273,13 @@ func checkRun(kind string, s spec, res string, dur time.Duration) {
 	if strings.HasPrefix(res, "PANIC") {
 		report(panicKey(res), "running "+kind+" program panicked: "+res, replay)
 		return
+	}
+	if obs != nil {
+		replay["steps"] = obs.steps
+		for _, v := range obs.viol {
+			kv := strings.SplitN(v, "|", 2)
+			report(kv[0], "per-step oracle on the real interpreter loop: "+kv[1], replay)
+		}
 	}
 	f := strings.Fields(res)
 	if len(f) < 2 {
